@@ -120,6 +120,17 @@ def run(prop, mod, tier, seed, replay, log, broken, workdir, t0):
             if hasattr(mod, "extra"):
                 extra_fail = mod.extra(ctx, cases) or []
 
+    # thorough tier: a sample of the cases is evaluated once more inside Coq (cross-check of extraction + runner)
+    coq_reeval = None
+    if tier == "thorough" and not replay and cases and proof_ok:
+        import coqcases
+        n_re, bad_ids, err = coqcases.run(prop, cases, log)
+        coq_reeval = {"evaluated_in_coq": n_re, "disagreeing_with_runner": bad_ids}
+        if err:
+            broken.append(("O3-coq-reevaluation", err))
+        elif bad_ids:
+            broken.append(("O3-extracted-runner-disagrees-with-coq", "case ids " + ", ".join(bad_ids[:10])))
+
     known, fixed = core.load_known(prop)
     known_sigs = {s for s, _ in known}
     fails = [c for c in cases if c.verdict != "ok"]
@@ -214,6 +225,7 @@ def run(prop, mod, tier, seed, replay, log, broken, workdir, t0):
             "translator": anchors_out,
             "modelled_not_verified": getattr(mod, "MODELLED", ""),
             "broken_obligations": [w for w, _ in broken],
+            "coq_reevaluation": coq_reeval,
         },
         "assumptions": list(getattr(mod, "ASSUMPTIONS", [])),
         "wall_s": round(time.time() - t0, 2),
